@@ -36,7 +36,61 @@ PAIRS = [
     ("js-default", "# a *b*\n\n> q `c`\n", "- x\n- [y](z)\n\n|a|b|\n|-|-|\n|1|2|\n"),
     ("commonmark", "1. a\n   b\n\n<div>\nx\n</div>\n\n[r]: /u 't'\n\n[r] ![i](s)\n", "***\n\n    code\n\n~~~\nf\n~~~\n"),
     ("zero", "plain *text*\n", "> more\n"),
+    ("commonmark", "[a](/u 't') ![i](s) <http://x.y>\n\n[r]: /v\n", "[b](</w> \"q\") [r] ![j](k)\n\n[r]: /z 'T'\n"),
 ]
+
+HOOK_DOCS = [("commonmark", "[a](/u 't') (see b) ![i](/s \"u\") <http://x.y> end\n\n[r]: /v 'w'\n\n[r] tail\n", "[b](/other \"q\") ![j](/k) [r2]\n\n[r2]: </z z> 'T'\n"),
+             ("js-default", "*a* [l](/1) `c` [m](/2 't') ~~s~~ <http://p.q>\n", "![x](/3) [y](/4)\n\n|h|\n|-|\n|[z](/5)|\n")]
+
+
+def hook_reentry(ctx: Ctx):
+    """(iv) re-entrancy from user callbacks: a validateLink / normalizeLink / normalizeLinkText hook (documented extension
+    points, called in the middle of the link, image, autolink and reference rules) renders another document on the same
+    instance on its j-th call; both renders must equal their solo results"""
+    from markdown_it import MarkdownIt
+
+    for preset, A, B in HOOK_DOCS:
+        SA, SB = MarkdownIt(preset).render(A), MarkdownIt(preset).render(B)
+        for slot in ("validateLink", "normalizeLink", "normalizeLinkText"):
+            # count the calls of a solo render
+            md0 = MarkdownIt(preset)
+            cnt = [0]
+            orig0 = getattr(md0, slot)
+
+            def c0(u, _o=orig0):
+                cnt[0] += 1
+                return _o(u)
+            setattr(md0, slot, c0)
+            md0.render(A)
+            for j in range(cnt[0]):
+                for depth in (1, 2):
+                    md = MarkdownIt(preset)
+                    orig = getattr(md, slot)
+                    st = {"n": 0, "B": [], "depth": 0}
+
+                    def hook(u, _o=orig, _st=st, _j=j, _d=depth):
+                        k = _st["n"]
+                        _st["n"] += 1
+                        if k == _j and _st["depth"] < _d:
+                            _st["depth"] += 1
+                            try:
+                                _st["n"] = 0 if _st["depth"] < _d else -10**6   # the nested render re-enters once more at depth 2
+                                _st["B"].append(md.render(B))
+                            finally:
+                                _st["depth"] -= 1
+                                _st["n"] = k + 1
+                        return _o(u)
+                    setattr(md, slot, hook)
+                    try:
+                        ra = md.render(A)
+                    except Exception as e:  # noqa: BLE001
+                        ra = "EXC " + type(e).__name__
+                    ctx.count(("hook", preset, slot, j, depth), nontrivial=True)
+                    if ra != SA or any(b != SB for b in st["B"]) or not st["B"]:
+                        ctx.fail("interference", f"a render re-entered from a {slot} hook (call {j}, depth {depth}) disturbs the outer or the inner render",
+                                 {"preset": preset, "A": A, "B": B, "slot": slot, "call": j, "depth": depth, "A_result": str(ra)[:300], "A_solo": SA[:300],
+                                  "B_results": [str(b)[:200] for b in st["B"]], "B_solo": SB[:200]})
+                        return
 
 
 class Hang(Exception):
@@ -329,6 +383,8 @@ def run(ctx: Ctx) -> None:
     if bad:
         ctx.fail("shared-write", f"parse/render wrote shared instance state other than Ruler.__cache__: {bad}",
                  {"writes": [list(b) for b in bad]})
+    # ---- (iv) re-entrancy from user callbacks
+    hook_reentry(ctx)
     # ---- (iii) pre-emption exploration
     points = 0
     budget_pts = 1400 if quick else 60000
